@@ -160,9 +160,30 @@ pub fn top_case_s() -> BoxedStrategy<Case18> {
         .boxed()
 }
 
+/// histories of services: a palette of two or three calls (half of the palettes only screen output, so that the same
+/// service comes back with the very same DL / AL / CX after another one ran in between), repeated and interleaved in a
+/// sequence of three to six calls -- state a service keeps from call to call only shows in such a sequence
+fn history_calls_s() -> BoxedStrategy<Vec<(Call, [u16; 4])>> {
+    let noise = || [crate::pt::u16s(), crate::pt::u16s(), crate::pt::u16s(), crate::pt::u16s()];
+    let screen = prop_oneof![
+        3 => (prop_oneof![2 => 0x9000u16..0xE000, 1 => Just(0xFFFFu16)], 0u16..16, prop_oneof![1 => Just(0u8), 3 => 1u8..8, 1 => 8u8..30], proptest::collection::vec(out_char(), 1..12))
+            .prop_map(|(seg, bp, dl, text)| Call::PutStr { seg, bp, dl, text }),
+        3 => (out_char(), prop_oneof![1 => Just(0u16), 4 => 1u16..12, 1 => 250u16..300]).prop_map(|(al, cx)| Call::RepChar { al, cx }),
+        1 => out_char().prop_map(|dl| Call::PutChar { dl }),
+    ];
+    let palette = prop_oneof![
+        1 => proptest::collection::vec((screen, noise()), 2..=3),
+        1 => proptest::collection::vec((call_s(), noise()), 2..=3),
+    ];
+    (palette, proptest::collection::vec(any::<u16>(), 3..=6)).prop_map(|(pal, idx)| idx.iter().map(|i| pal[(*i as usize * pal.len()) >> 16].clone()).collect()).boxed()
+}
+
 pub fn case_s() -> BoxedStrategy<Case18> {
     (
-        proptest::collection::vec((call_s(), [crate::pt::u16s(), crate::pt::u16s(), crate::pt::u16s(), crate::pt::u16s()]), 1..=4),
+        prop_oneof![
+            3 => proptest::collection::vec((call_s(), [crate::pt::u16s(), crate::pt::u16s(), crate::pt::u16s(), crate::pt::u16s()]), 1..=4).boxed(),
+            1 => history_calls_s(),
+        ],
         prop_oneof![5 => Just(0u8), 2 => Just(1u8), 2 => Just(2u8), 1 => Just(3u8)],
         proptest::collection::vec(proptest::sample::select(vec!["stc", "clc", "cmc", "std", "cld", "sti", "cli"]), 0..3),
         proptest::collection::vec(any::<u8>(), 24),
@@ -512,6 +533,29 @@ pub fn eval(c: &Case18) -> CaseOutcome {
             Call::Unsupported { .. } => classes.push("c18/unsupported".into()),
         }
     }
+    // histories: the same screen service with the same parameters comes back after another service ran in between
+    {
+        let sig = |k: &Call| match k {
+            Call::PutStr { dl, text, .. } => Some(format!("p{}:{}", dl, text.len())),
+            Call::RepChar { al, cx } => Some(format!("r{}:{}", al, cx)),
+            _ => None,
+        };
+        let sigs: Vec<Option<String>> = c.calls.iter().map(|(k, _)| sig(k)).collect();
+        for i in 0..sigs.len() {
+            for j in i + 2..sigs.len() {
+                if sigs[i].is_some() && sigs[i] == sigs[j] && (i + 1..j).any(|m| sigs[m] != sigs[i]) {
+                    classes.push("c18/history-same-screen-call-again-after-another".into());
+                    if matches!(&c.calls[i].0, Call::PutStr { dl, .. } if *dl > 0) && (i + 1..j).any(|m| matches!(&c.calls[m].0, Call::RepChar { cx, .. } if *cx > 0)) {
+                        classes.push("c18/history-13h-0Ah-13h-same-column".into());
+                    }
+                    nt = true;
+                }
+            }
+        }
+        if c.calls.len() >= 5 {
+            classes.push("c18/history-5-or-more-calls".into());
+        }
+    }
     match c.stdin_mode {
         3 => {
             classes.push("c18/stdin-closed".into());
@@ -568,7 +612,7 @@ pub fn eval_ends_normally(c: &Case18, bin: &'static str, key: &str) -> CaseOutco
 }
 
 pub fn run(ctx: &Ctx) {
-    ctx.set_rule("L3 with piped stdin: proptest-generated programs of 1-4 interrupt calls (INT 21h AH=1, 2, 0Ah; INT 10h AH=0Ah, 13h) with random AL/BX/CX/DX/SI/DI/BP and segment values and random flag-control instructions; AH=0Ah buffers mid-memory, at the end of a segment, ending at FFFFFh and wrapping past it, capacity 0/1/2/5/254/255/random, pre-filled with CCh from 2 bytes before to 8 bytes after; input lines empty / one shorter than / equal to / one longer than / 40 longer than the capacity, with two-byte characters; stdin complete, without final newline, ending one line early, or closed; AH=13h strings in the data section incl. segments FFFEh/FFFFh so that the text crosses 2^20, characters >= 80h; CX up to 600 for AH=0Ah. After every call the program prints registers, flags and the buffer region; stdout is tokenised and compared event by event with the reference machine (characters written, AL results, every other register, all flags, memory). The stored count of AH=0Ah is read back and must be <= capacity and <= line length (and not more than one short of both). Plus EVERY AH value 0..=255 for both interrupts (512 programs): unsupported values must be reported for the right line and nothing after them may execute. Non-trivial = input longer than the capacity, closed stdin, a buffer or string within 8 bytes of 2^20, CX >= 256.");
+    ctx.set_rule("L3 with piped stdin: proptest-generated programs of 1-4 interrupt calls (INT 21h AH=1, 2, 0Ah; INT 10h AH=0Ah, 13h), one in four a history of 3-6 calls drawn from a palette of two or three calls so that the same service comes back with the same DL / AL / CX after another one ran in between, with random AL/BX/CX/DX/SI/DI/BP and segment values and random flag-control instructions; AH=0Ah buffers mid-memory, at the end of a segment, ending at FFFFFh and wrapping past it, capacity 0/1/2/5/254/255/random, pre-filled with CCh from 2 bytes before to 8 bytes after; input lines empty / one shorter than / equal to / one longer than / 40 longer than the capacity, with two-byte characters; stdin complete, without final newline, ending one line early, or closed; AH=13h strings in the data section incl. segments FFFEh/FFFFh so that the text crosses 2^20, characters >= 80h; CX up to 600 for AH=0Ah. After every call the program prints registers, flags and the buffer region; stdout is tokenised and compared event by event with the reference machine (characters written, AL results, every other register, all flags, memory). The stored count of AH=0Ah is read back and must be <= capacity and <= line length (and not more than one short of both). Plus EVERY AH value 0..=255 for both interrupts (512 programs): unsupported values must be reported for the right line and nothing after them may execute. Non-trivial = input longer than the capacity, closed stdin, a buffer or string within 8 bytes of 2^20, CX >= 256.");
     ctx.assume("bytes >= 80h are written as the UTF-8 encoding of that code point (how the emulator prints a byte converted to char); a line terminator (CR, LF, NUL, '$') directly after the stored characters of AH=0Ah is accepted; AH=1 on an empty line is not generated (whether its first byte is the newline is not specified); stdin is valid UTF-8");
     ctx.set_exhaustive(false);
     if !cli_available() {
@@ -636,6 +680,9 @@ pub fn run(ctx: &Ctx) {
     }
     for k in ["c18/21h-01", "c18/21h-02", "c18/21h-0A", "c18/10h-0A", "c18/10h-13", "c18/line-longer-than-capacity", "c18/capacity-0", "c18/buffer-near-or-across-2^20", "c18/string-across-2^20", "c18/string-starts-at-or-beyond-2^20", "c18/cx>=256", "c18/stdin-closed", "c18/stdin-ends-early", "c18/stdin-no-final-newline", "c18/char>=80h"] {
         ctx.require_class(k, 20);
+    }
+    for k in ["c18/history-same-screen-call-again-after-another", "c18/history-13h-0Ah-13h-same-column", "c18/history-5-or-more-calls"] {
+        ctx.require_class(k, 5);
     }
 }
 
